@@ -15,7 +15,7 @@
  *   sig <sid> speech <len> <seed> <path> | sig <sid> noise <len> <seed> | sig <sid> clipped <len> <seed> | sig <sid> ramp <len> <seed>
  *   run <eid> <cid> <sid> <i|f> <doc|drain> <N> <endmax> <warm> <k> n1 m1 ... nk mk
  *                                      m = -1: call with a NULL output buffer (count only)
- *                                      warm = 1: the (fresh) front end first processes another short
+ *                                      warm = 1 (2: without the fe_end): the (fresh) front end first processes another short
  *                                      utterance to its end, so that the execution proper starts with
  *                                      fe_start on a USED object (stale frame buffer, pre-emphasis memory
  *                                      and noise statistics) - every execution is self-contained, which
@@ -269,7 +269,8 @@ do_run(char *line)
         mfcc_t **wone = (mfcc_t **)ckd_calloc_2d(1, c->dim, sizeof(mfcc_t));
         fe_start(fe);
         call_process(fe, c, s, enc, 0, wn, wn / c->shift + 3, wn / c->shift + 3, &w, &wacc, &wcap, &left, &adv);
-        fe_end(fe, wone, 1);
+        if (warm != 2) /* 2: the utterance is abandoned with its last samples still buffered */
+            fe_end(fe, wone, 1);
         ckd_free_2d(wone);
         free(w);
     }
